@@ -497,4 +497,34 @@ pub fn run(rec: &mut Recorder, w: &mut World, tier: &str, seed: u64) {
             else { rec.nontrivial_case(&label); rec.count_n("decisions-checked", (v.threads * v.rounds * v.reqs.len()) as u64); }
         }
     } }
+    // ---- more distinct requests than the decision cache holds (200): entries are evicted while other threads look them up ----
+    for si in 0..(if thorough { 4 } else { 1 }) * rec.budget as usize {
+        // one rule with a prefix pattern grants every user: evaluation stays cheap, requests stay distinct
+        let mut km = acl.clone();
+        km.m = crate::ast::and(crate::ast::and(crate::ast::Ex::Call2("keyMatch".into(), Box::new(crate::ast::Ex::R(0)), Box::new(crate::ast::Ex::P(0))), crate::ast::eq(crate::ast::Ex::R(1), crate::ast::Ex::P(1))), crate::ast::eq(crate::ast::Ex::R(2), crate::ast::Ex::P(2)));
+        let m = model_of(&km, E_ALLOW, false, "", false);
+        rec.begin();
+        rec.exec(w, "e.cached\ttrue");
+        let n_users = 400;
+        let lines: Vec<Vec<String>> = vec![sv(&["p", "p", "u*", "data1", "read"]), sv(&["p", "p", "root", "data2", "read"])];
+        if new_enforcer(rec, w, &m, "memory", &lines, "", false) != "ok" { rec.fail("new-failed", "cannot build the many-requests enforcer".into()); continue; }
+        let setup: Vec<String> = rec.current.clone();
+        let mut reqs: Vec<Vec<String>> = vec![];
+        for i in 0..n_users { reqs.push(vec![sval(&format!("u{}", i)), sval("data1"), sval("read")]); if i % 2 == 0 { reqs.push(vec![sval(&format!("u{}", i)), sval("data2"), sval("read")]); } }
+        let req_strs: Vec<String> = reqs.iter().map(|r| r.join(",")).collect();
+        // serial decisions in chunks (one protocol line each), compared with the model like every other line
+        let mut row = String::new();
+        for ch in reqs.chunks(100) { row.push_str(&rec.exec(w, &format!("e.enfs\t{}", enc_reqs(ch)))); }
+        let sc = Scenario { what: "many-requests+cached".into(), setup, history: vec![], reqs: req_strs, rows: vec![row], perms: vec![], irows: vec![],
+            threads: if thorough { 16 } else { 8 }, rounds: if thorough { 200 } else { 50 }, seed: rng.next(), writer: false, handle: "none".into(), helpers: false, rendezvous: false,
+            users: vec![], watchdog_ms: 60000, ctx: None, ctx_rows: vec![] };
+        let label = format!("{} threads={} distinct requests={} run {}", sc.what, sc.threads, sc.reqs.len(), si);
+        let out = rec.exec_impl_only(w, &format!("conc.run\t{}", esc(&serde_json::to_string(&sc).unwrap())));
+        rec.count(&format!("run:many-requests:{}", out.split(|c| c == ':' || c == ' ').next().unwrap_or("")));
+        if out.starts_with("timeout") { rec.fail("deadlock", format!("[{}] a call never returned: {}", label, out)); }
+        else if out.starts_with("mismatch") { rec.fail("decision-not-serial", format!("[{}] {}", label, out)); }
+        else if !out.starts_with("ok") { rec.fail("concurrent-run-crashed", format!("[{}] {}", label, out)); }
+        else { rec.nontrivial_case(&label); rec.count_n("decisions-checked", (sc.threads * sc.rounds * sc.reqs.len()) as u64); }
+        rec.exec(w, "e.cached\tfalse");
+    }
 }
